@@ -8,8 +8,8 @@ Open Scope Z_scope.
 Lemma gen_round_up_eq a b : GenStripe.round_up a b = Stripe.round_up a b.
 Proof. reflexivity. Qed.
 
-Lemma gen_rolling_buffer_shape_eq ph pw pd ch cw :
-  GenStripe.rolling_buffer_shape ph pw pd ch cw = Stripe.rolling_buffer_shape ph pw pd ch cw.
+Lemma gen_rolling_buffer_shape_eq ph pw pd ch cw rows :
+  GenStripe.rolling_buffer_shape ph pw pd ch cw rows = Stripe.rolling_buffer_shape ph pw pd ch cw rows.
 Proof. reflexivity. Qed.
 
 Lemma gen_needed_total_padding_eq i s f :
